@@ -52,6 +52,8 @@ DECIDING = {
     "driver_manual": "exit driven by explicit __aexit__",
     "driven_inside_except_handler": "exit driven inside a caller's except handler",
     "native_cancel_runs": "native asyncio cancellation",
+    "callback_form_partial": "callbacks given as functools.partial",
+    "callback_form_object": "callbacks given as objects with (async) __call__",
 }
 ASSUMPTIONS = [
     "callbacks that block for ever or shield themselves from cancellation are not generated",
